@@ -36,6 +36,7 @@
 #include <unifex/type_list.hpp>
 #include <unifex/type_traits.hpp>
 
+#include <algorithm>
 #include <exception>
 #include <functional>
 #include <memory>
@@ -206,6 +207,7 @@ struct _receiver<Predecessor, Receiver, Func, FuncPolicy>::type {
            sched = std::forward<Scheduler>(sched),
            begin_it,
            chunk_size,
+           distance,
            end_it,
            num_chunks](Values&... values) mutable {
             return unifex::let_value_with(
@@ -226,11 +228,19 @@ struct _receiver<Predecessor, Receiver, Func, FuncPolicy>::type {
                                 unifex::bulk_schedule(
                                     std::move(sched), num_chunks),
                                 [&](diff_t index) {
+                                  // chunk_size * num_chunks can exceed the
+                                  // length of the range: clamp both bounds.
+                                  const diff_t chunk_begin_offset =
+                                      std::min(chunk_size * index, distance);
                                   auto chunk_begin_it =
-                                      begin_it + (chunk_size * index);
+                                      begin_it + chunk_begin_offset;
                                   auto chunk_end_it = chunk_begin_it;
                                   if (index < (num_chunks - 1)) {
-                                    std::advance(chunk_end_it, chunk_size);
+                                    std::advance(
+                                        chunk_end_it,
+                                        std::min(
+                                            chunk_size,
+                                            distance - chunk_begin_offset));
                                   } else {
                                     chunk_end_it = end_it;
                                   }
